@@ -203,7 +203,9 @@ def merge(results: list[dict]) -> dict:
             m['samples'].extend(r.get('samples', [])[: 6 - len(m['samples'])])
         m['inconclusive'].extend(r.get('inconclusive', []))
         for k, v in r.get('extra', {}).items():
-            if isinstance(v, (int, float)) and isinstance(m['extra'].get(k, 0), (int, float)):
+            if isinstance(v, bool):
+                m['extra'][k] = bool(m['extra'].get(k, True)) and v
+            elif isinstance(v, (int, float)) and isinstance(m['extra'].get(k, 0), (int, float)):
                 m['extra'][k] = m['extra'].get(k, 0) + v
             elif isinstance(v, list):
                 cur = m['extra'].setdefault(k, [])
